@@ -428,3 +428,215 @@ Proof. rewrite rel_spec_correct. unfold rel_spec. rewrite str_eqb_refl. reflexiv
 
 Theorem rel_same_clean b t : clean Linux b = clean Linux t -> rel Linux b t = RelOk [DOT].
 Proof. intros E. rewrite rel_spec_correct. unfold rel_spec. rewrite E, str_eqb_refl. reflexivity. Qed.
+
+(* ---- soundness: Join(base, Rel(base, targ)) = Clean(targ) ---------------------------- *)
+Lemma norm_app r : forall (a b st : list str), norm r st (a ++ b) = norm r (rev (norm r st a)) b.
+Proof.
+  induction a as [|c a IH]; intros b st.
+  - cbn [app norm]. rewrite rev_involutive. reflexivity.
+  - cbn [app]. cbn [norm]. destruct (match c with [] => true | _ => false end || is_dot c); [apply IH|].
+    destruct (is_dotdot c); [|apply IH]. destruct st as [|top st']; [destruct r; apply IH|].
+    destruct (is_dotdot top); apply IH.
+Qed.
+
+Lemma norm_pop r : forall (g st X : list str),
+  Forall good g -> norm r (g ++ st) (repeat DD (length g) ++ X) = norm r st X.
+Proof.
+  induction g as [|top g IH]; intros st X Hg; [reflexivity|].
+  inversion Hg as [|? ? (_ & _ & _ & Hdd) Hg']; subst. cbn [app length repeat].
+  change (norm r (top :: g ++ st) (DD :: repeat DD (length g) ++ X))
+    with (if is_dotdot top then norm r (DD :: top :: g ++ st) (repeat DD (length g) ++ X)
+          else norm r (g ++ st) (repeat DD (length g) ++ X)).
+  rewrite Hdd. apply IH. exact Hg'.
+Qed.
+
+Lemma L_succ k (names : list str) : L (S k) names = DD :: L k names.
+Proof. reflexivity. Qed.
+
+Lemma L_app_inv : forall (c : list str) k (names b2 : list str),
+  L k names = c ++ b2 -> Forall good names ->
+  (exists j n1, c = L j n1 /\ Forall good n1 /\ (k = 0 -> j = 0)) /\ (Forall good b2 \/ hd [] b2 = DD).
+Proof.
+  induction c as [|x c IH]; intros k names b2 E Hg.
+  - split; [exists 0, []; repeat split; auto|]. cbn [app] in E. rewrite <- E. destruct k as [|k].
+    + left. unfold L. cbn [repeat app]. apply Forall_rev. exact Hg.
+    + right. reflexivity.
+  - destruct k as [|k].
+    + unfold L in E. cbn [repeat app] in E.
+      assert (Hall : Forall good (rev names)) by (apply Forall_rev; exact Hg).
+      rewrite E in Hall. change (x :: c ++ b2) with ((x :: c) ++ b2) in Hall.
+      apply Forall_app in Hall as [Hc Hb]. split; [|left; exact Hb].
+      exists 0, (rev (x :: c)). unfold L. cbn [repeat app]. rewrite rev_involutive.
+      split; [reflexivity|]. split; [apply Forall_rev; exact Hc|auto].
+    + rewrite L_succ in E. cbn [app] in E. injection E as <- E.
+      destruct (IH k names b2 E Hg) as ((j & n1 & Hc & Hg1 & _) & Hb). split; [|exact Hb].
+      exists (S j), n1. rewrite L_succ, Hc. split; [reflexivity|]. split; [exact Hg1|discriminate].
+Qed.
+
+Lemma join2 (b r : str) :
+  r <> [] -> is_abs_spec r = false ->
+  join Linux [b; r]
+  = render (is_abs_spec b) (norm (is_abs_spec b) (rev (ncomps b)) (path_comps r)).
+Proof.
+  intros Hr Ha.
+  assert (E : join Linux [b; r] = render (is_abs_spec b) (norm (is_abs_spec b) [] (path_comps b ++ path_comps r))).
+  { destruct b as [|b0 b'].
+    - etransitivity; [apply (@join_comps [[]; r] r []); cbn [filter ne negb]; destruct r; [congruence|reflexivity]|].
+      rewrite Ha. unfold fc. cbn [flat_map]. rewrite app_nil_r. reflexivity.
+    - etransitivity; [apply (@join_comps [b0 :: b'; r] (b0 :: b') [r]); cbn [filter ne negb]; destruct r; [congruence|reflexivity]|].
+      unfold fc. cbn [flat_map]. rewrite app_nil_r. reflexivity. }
+  rewrite E, norm_app, ncomps_path_comps. reflexivity.
+Qed.
+
+Lemma is_abs_spec_J (ws : list str) : Forall word ws -> is_abs_spec (J ws) = false.
+Proof. intros H. destruct (words_split H). apply (@is_abs_spec_render false ws) in H0; auto.
+  unfold render in H0. destruct ws; [reflexivity|exact H0]. Qed.
+
+Lemma path_comps_J (ws : list str) : Forall word ws -> ws <> [] -> path_comps (J ws) = ws.
+Proof.
+  intros H Hne. destruct (words_split H) as (H1 & H2).
+  pose proof (@path_comps_render false ws Hne H1 H2) as E. unfold render in E. destruct ws; [congruence|exact E].
+Qed.
+
+Lemma good_hd_notdd (l : list str) : Forall good l -> is_dotdot (hd [] l) = false.
+Proof. intros H. destruct l as [|c l]; [reflexivity|]. inversion H as [|? ? (_ & _ & _ & Hd) _]. exact Hd. Qed.
+
+Theorem rel_sound b t r : rel Linux b t = RelOk r -> join Linux [b; r] = clean Linux t.
+Proof.
+  rewrite rel_spec_correct. unfold rel_spec.
+  destruct (str_eqb (clean Linux t) (clean Linux b)) eqn:Eq.
+  - (* Clean(base) = Clean(targ): "." *)
+    intros [= <-]. apply str_eqb_eq in Eq. rewrite Eq, (clean_ncomps b).
+    rewrite join2 by (try discriminate; reflexivity).
+    change (path_comps [DOT]) with [[DOT]]. rewrite norm_dot by reflexivity. cbn [norm].
+    rewrite rev_involutive. reflexivity.
+  - apply str_eqb_neq in Eq.
+    destruct (Bool.eqb (is_abs_spec b) (is_abs_spec t)) eqn:Er; [|discriminate]. cbn [negb].
+    apply Bool.eqb_prop in Er.
+    pose proof (ncomps_words b) as Hb. pose proof (twords_words t) as Ht.
+    destruct (strip_common_split (ncomps b) (twords t)) as (c & Hc1 & Hc2).
+    destruct (strip_common_words Hb Ht) as (Hb2 & Ht2).
+    set (b2 := fst (strip_common (ncomps b) (twords t))) in *.
+    set (t2 := snd (strip_common (ncomps b) (twords t))) in *.
+    unfold rel_tail. destruct (is_dotdot (hd [] b2)) eqn:Hdd; [discriminate|]. intros [= <-].
+    destruct (ncomps_shape b) as (k & names & EL & Hg & Hk).
+    assert (EL2 : L k names = c ++ b2) by (rewrite <- EL; exact Hc1).
+    destruct (@L_app_inv c k names b2 EL2 Hg) as ((j & n1 & Ec & Hg1 & Hj) & Hgb).
+    assert (Hgb2 : Forall good b2).
+    { destruct Hgb as [H|H]; [exact H|]. rewrite H in Hdd. discriminate. }
+    assert (Hw : Forall word (repeat DD (length b2) ++ t2)).
+    { apply Forall_app. split; [apply Forall_repeat; exact word_DD|exact Ht2]. }
+    assert (Hne : repeat DD (length b2) ++ t2 <> []).
+    { intros E. apply app_eq_nil in E as [E1 E2].
+      apply (ncomps_ne_twords b t Er Eq). rewrite Hc1, Hc2, E2.
+      destruct b2; [reflexivity|discriminate]. }
+    rewrite join2.
+    2:{ intros E. apply (J_nil_iff Hw) in E. exact (Hne E). }
+    2:{ apply is_abs_spec_J. exact Hw. }
+    rewrite (path_comps_J Hw Hne). rewrite Hc1, rev_app_distr.
+    rewrite <- (rev_length b2). rewrite norm_pop by (apply Forall_rev; exact Hgb2).
+    rewrite (clean_ncomps t), <- Er. f_equal.
+    (* norm (rev c) t2 = norm [] (c ++ t2) = ncomps t *)
+    assert (Hfix : norm (is_abs_spec b) [] c = c).
+    { rewrite Ec. apply norm_fix; [exact Hg1|]. intros Hr. apply Hj, Hk, Hr. }
+    rewrite <- Hfix at 1. rewrite <- norm_app, <- Hc2, Er. apply norm_twords.
+Qed.
+
+(* ---- when Rel fails ---------------------------------------------------------------- *)
+(* number of leading ".." elements *)
+Fixpoint count_dd (l : list str) : nat :=
+  match l with c :: l' => if is_dotdot c then S (count_dd l') else 0 | [] => 0 end.
+
+Definition notdd (c : str) : Prop := is_dotdot c = false.
+
+Lemma count_dd_repeat k (X : list str) : Forall notdd X -> count_dd (repeat DD k ++ X) = k.
+Proof.
+  intros HX. induction k as [|k IH]; cbn [repeat app].
+  - destruct X as [|x X]; [reflexivity|]. inversion HX as [|? ? Hx _]; subst. cbn [count_dd]. rewrite Hx. reflexivity.
+  - cbn [count_dd]. change (is_dotdot DD) with true. cbv iota. rewrite IH. reflexivity.
+Qed.
+
+Lemma strip_dd : forall kb kt (X Y : list str),
+  Forall notdd X -> Forall notdd Y ->
+  is_dotdot (hd [] (fst (strip_common (repeat DD kb ++ X) (repeat DD kt ++ Y)))) = Nat.ltb kt kb.
+Proof.
+  induction kb as [|kb IH]; intros kt X Y HX HY.
+  - cbn [repeat app]. destruct (strip_common_split X (repeat DD kt ++ Y)) as (c & H1 & _).
+    rewrite H1 in HX. apply Forall_app in HX as [_ HX].
+    destruct (fst (strip_common X (repeat DD kt ++ Y))) as [|x l]; [reflexivity|].
+    inversion HX as [|? ? Hx _]; subst. exact Hx.
+  - destruct kt as [|kt]; cbn [repeat app].
+    + destruct Y as [|y Y]; [reflexivity|]. inversion HY as [|? ? Hy _]; subst. cbn [strip_common].
+      unfold notdd, is_dotdot in Hy. change [DOT; DOT] with DD in Hy. rewrite Hy. reflexivity.
+    + cbn [strip_common]. rewrite str_eqb_refl. apply IH; assumption.
+Qed.
+
+Lemma good_notdd (l : list str) : Forall good l -> Forall notdd l.
+Proof. intros H. eapply Forall_impl; [|exact H]. intros c (_ & _ & _ & Hd). exact Hd. Qed.
+
+(* the non-empty components of a cleaned path *)
+Lemma path_comps_clean p : path_comps (clean Linux p) = twords p.
+Proof.
+  rewrite clean_twords. pose proof (twords_words p) as Hw. destruct (words_split Hw) as (H1 & H2).
+  destruct (twords p) as [|w ws] eqn:E.
+  - destruct (is_abs_spec p); reflexivity.
+  - rewrite <- E in *. assert (Hne : twords p <> []) by (rewrite E; discriminate).
+    pose proof (@path_comps_render (is_abs_spec p) (twords p) Hne H1 H2) as Hr.
+    unfold render in Hr. unfold ol. destruct (is_abs_spec p); [exact Hr|]. rewrite E in Hr |- *. exact Hr.
+Qed.
+
+Lemma twords_dd p :
+  exists k (X : list str), twords p = repeat DD k ++ X /\ Forall notdd X /\ count_dd (twords p) = k
+                           /\ (ncomps p = twords p \/ (ncomps p = [] /\ k = 0)).
+Proof.
+  unfold twords. destruct (ncomps_shape p) as (k & names & E & Hg & _).
+  destruct (ncomps p) as [|c l] eqn:En.
+  - exists 0. destruct (is_abs_spec p).
+    + exists []. repeat split; auto.
+    + exists [[DOT]]. repeat split; auto. constructor; [reflexivity|constructor].
+  - rewrite E. exists k, (rev names). unfold L.
+    assert (Hn : Forall notdd (rev names)) by (apply good_notdd, Forall_rev, Hg).
+    repeat split; auto. apply count_dd_repeat. exact Hn.
+Qed.
+
+Theorem rel_error_iff b t :
+  rel Linux b t = RelErr <->
+  is_abs Linux b <> is_abs Linux t \/
+  count_dd (path_comps (clean Linux t)) < count_dd (path_comps (clean Linux b)).
+Proof.
+  rewrite rel_spec_correct, !path_comps_clean.
+  change (is_abs Linux b) with (is_abs_spec b). change (is_abs Linux t) with (is_abs_spec t). unfold rel_spec.
+  destruct (twords_dd b) as (kb & X & Eb & HX & Cb & Nb).
+  destruct (twords_dd t) as (kt & Y & Et & HY & Ct & Nt).
+  rewrite Cb, Ct.
+  destruct (str_eqb (clean Linux t) (clean Linux b)) eqn:Eq.
+  - apply str_eqb_eq in Eq. split; [discriminate|]. intros [H|H]; exfalso.
+    + apply H. rewrite (clean_ncomps b), (clean_ncomps t) in Eq.
+      pose proof (ncomps_words b) as Hb. pose proof (ncomps_words t) as Ht.
+      destruct (words_split Hb), (words_split Ht).
+      rewrite <- (@is_abs_spec_render (is_abs_spec b) (ncomps b)), <- (@is_abs_spec_render (is_abs_spec t) (ncomps t)) by assumption.
+      rewrite Eq. reflexivity.
+    + assert (E2 : twords t = twords b) by (rewrite <- !path_comps_clean, Eq; reflexivity).
+      rewrite E2, Cb in Ct. lia.
+  - destruct (Bool.eqb (is_abs_spec b) (is_abs_spec t)) eqn:Er; cbn [negb].
+    + apply Bool.eqb_prop in Er. unfold rel_tail.
+      assert (Hs : is_dotdot (hd [] (fst (strip_common (ncomps b) (twords t)))) = Nat.ltb kt kb).
+      { destruct Nb as [Nb|(Nb & ->)].
+        - rewrite Nb, Eb, Et. apply strip_dd; assumption.
+        - rewrite Nb. reflexivity. }
+      rewrite Hs. destruct (Nat.ltb_spec kt kb) as [Hlt|Hge].
+      * split; [right; exact Hlt|reflexivity].
+      * split; [discriminate|]. intros [H|H]; [congruence|lia].
+    + split; [|reflexivity]. intros _. left. intros E. rewrite E in Er.
+      destruct (is_abs_spec t); discriminate.
+Qed.
+
+(* ---- non-vacuity ------------------------------------------------------------------------ *)
+Example rel_examples :
+  rel Linux [47;97;47;98]%N [47;97;99]%N = RelOk [46;46;47;46;46;47;97;99]%N     (* Rel "/a/b" "/ac" = "../../ac" *)
+  /\ rel Linux [97;47;98]%N [97;47;98;47;99;47;100]%N = RelOk [99;47;100]%N      (* Rel "a/b" "a/b/c/d" = "c/d" *)
+  /\ rel Linux [46;46]%N [46]%N = RelErr                                         (* Rel ".." "." fails *)
+  /\ rel Linux [47;97]%N [97]%N = RelErr                                         (* Rel "/a" "a" fails *)
+  /\ rel Linux [97]%N [46]%N = RelOk [46;46;47;46]%N                             (* Rel "a" "." = "../." as Go does *)
+  /\ join Linux [[47;97;47;98]%N; [46;46;47;46;46;47;97;99]%N] = clean Linux [47;97;99]%N.
+Proof. vm_compute. repeat split. Qed.
